@@ -452,10 +452,11 @@ func coqSeq(sq seqScenario, res []stepResult) []string {
 // ---------- families of cloned clients ----------
 
 type famOp struct {
-	Kind string   `json:"kind"` // clone | order | porder | mw
+	Kind string   `json:"kind"` // clone | order | porder | mw | hadd (SetCommonHeaderNonCanonical: append) | hset (SetCommonHeader)
 	Who  int      `json:"who"`
 	Keys []string `json:"keys,omitempty"`
-	Tag  string   `json:"tag,omitempty"`
+	Tag  string   `json:"tag,omitempty"` // mw: the header the middleware sets; hadd / hset: the common header's name
+	Val  string   `json:"val,omitempty"`
 }
 
 type famScenario struct {
@@ -501,6 +502,19 @@ func genFam(r *hk.Rand, proto, idx int) famScenario {
 			addMW(0)
 		}
 	}
+	// multi-valued common headers on the base: 1, 2, 3 or 5 values under one name, so that the value
+	// slice is left with (3 -> cap 4, 5 -> cap 8) and without spare capacity when the client is cloned
+	common := []string{"X-Common-A", "x-common-b", "X-Common-C"}[:r.Range(1, 3)]
+	nval := 0
+	hadd := func(who int, name string) {
+		nval++
+		f.Ops = append(f.Ops, famOp{Kind: "hadd", Who: who, Tag: name, Val: fmt.Sprintf("c%d-by-%d", nval, who)})
+	}
+	for _, nm := range common {
+		for i, n := 0, hk.Pick(r, []int{1, 2, 3, 3, 3, 5}); i < n; i++ {
+			hadd(0, nm)
+		}
+	}
 	// generations of clones, each registering its own order(s) after being cloned
 	for g := 0; g < r.Range(2, 3); g++ {
 		first := members
@@ -515,7 +529,29 @@ func genFam(r *hk.Rand, proto, idx int) famScenario {
 			}
 			for k := 0; k < kids && members < 7; k++ {
 				f.Ops = append(f.Ops, famOp{Kind: "clone", Who: p})
+				kid := members
 				members++
+				// one more value under the same name on the clone AND on its original, in either order;
+				// now and then a Set (fresh slice) on one side
+				for _, nm := range common {
+					if !r.Chance(70) {
+						continue
+					}
+					a, b := kid, p
+					if r.Bool() {
+						a, b = p, kid
+					}
+					hadd(a, nm)
+					if r.Chance(15) {
+						nval++
+						f.Ops = append(f.Ops, famOp{Kind: "hset", Who: b, Tag: nm, Val: fmt.Sprintf("set%d-by-%d", nval, b)})
+					} else {
+						hadd(b, nm)
+					}
+					if r.Chance(25) {
+						hadd(hk.Pick(r, []int{a, b}), nm)
+					}
+				}
 			}
 		}
 		order := make([]int, 0, members-first)
@@ -556,6 +592,23 @@ func famRegs(ops []famOp) [][]famReg {
 	return regs
 }
 
+// famHeaders: the oracle's reading of the API for the common headers - a clone starts with a COPY of its
+// parent's headers; a value added or set on either side afterwards does not reach the other
+func famHeaders(ops []famOp) []http.Header {
+	hs := []http.Header{{}}
+	for _, op := range ops {
+		switch op.Kind {
+		case "clone":
+			hs = append(hs, hs[op.Who].Clone())
+		case "hadd":
+			hs[op.Who][op.Tag] = append(hs[op.Who][op.Tag], op.Val)
+		case "hset":
+			hs[op.Who].Set(op.Tag, op.Val)
+		}
+	}
+	return hs
+}
+
 func runFam(r *hk.Run, f famScenario, o *origin.Origin, famNo int) {
 	pn := protoName(f.Proto)
 	capt := &captured{}
@@ -575,6 +628,10 @@ func runFam(r *hk.Run, f famScenario, o *origin.Origin, famNo int) {
 			c.SetCommonHeaderOrder(op.Keys...)
 		case "porder":
 			c.SetCommonPseudoHeaderOder(op.Keys...)
+		case "hadd":
+			c.SetCommonHeaderNonCanonical(op.Tag, op.Val)
+		case "hset":
+			c.SetCommonHeader(op.Tag, op.Val)
 		case "mw":
 			tag := op.Tag
 			c.GetTransport().WrapRoundTripFunc(func(rt http.RoundTripper) req.HttpRoundTripFunc {
@@ -586,7 +643,8 @@ func runFam(r *hk.Run, f famScenario, o *origin.Origin, famNo int) {
 		}
 	}
 	regs := famRegs(f.Ops)
-	var members []string
+	hdrs := famHeaders(f.Ops)
+	var members, hmembers []string
 	for m, c := range clients {
 		// the member's configuration as the single-request oracle understands it
 		sc := scenario{Proto: f.Proto, Method: "GET", Req: f.Req}
@@ -604,6 +662,8 @@ func runFam(r *hk.Run, f famScenario, o *origin.Origin, famNo int) {
 				sc.Cli = append(sc.Cli, hdrOp{Kind: "set", K: rg.Tag, V: "1"})
 			}
 		}
+		sc.Cli = append(sc.Cli, headerOps(hdrs[m])...)
+		hmembers = append(hmembers, fmt.Sprintf("(%d%%nat, %s)", m, coqKVMap(c.Headers, nil)))
 		*capt = captured{}
 		r.Count("fam." + pn + ".member")
 		obs, err := sendOn(c, scenario{Proto: f.Proto, Method: "GET", Req: f.Req}, o, fmt.Sprintf("/c16?f=%d&m=%d", famNo, m))
@@ -632,6 +692,20 @@ func runFam(r *hk.Run, f famScenario, o *origin.Origin, famNo int) {
 			ops = append(ops, fmt.Sprintf("FMw %d %s", op.Who, cs(op.Tag)))
 		}
 	}
+	// ... and the common headers: operations -> per member the client's header map
+	var hops []string
+	for _, op := range f.Ops {
+		switch op.Kind {
+		case "clone":
+			hops = append(hops, fmt.Sprintf("HClone %d", op.Who))
+		case "hadd":
+			hops = append(hops, fmt.Sprintf("HAdd %d %s %s", op.Who, cs(op.Tag), cs(op.Val)))
+		case "hset":
+			hops = append(hops, fmt.Sprintf("HSet %d %s %s", op.Who, cs(op.Tag), cs(op.Val)))
+		}
+	}
+	r.Add(hk.Case{Coq: fmt.Sprintf("CloneHdrCase %s %s", hk.CoqList(hops), hk.CoqList(hmembers)),
+		Desc: map[string]interface{}{"kind": "family-headers-model-" + pn, "family": f}}, fmt.Sprintf("famhdr|%+v", f), true)
 	r.Add(hk.Case{Coq: fmt.Sprintf("CloneCase %s %s", hk.CoqList(ops), hk.CoqList(members)),
 		Desc: map[string]interface{}{"kind": "family-model-" + pn, "family": f}}, fmt.Sprintf("fammodel|%+v", f), true)
 }
